@@ -342,7 +342,10 @@ Definition trig_mime (u : upload) : bool :=
   negb (n_cm n) &&
   (String.eqb (n_mime n) octet ||
    (String.eqb (n_mime n) "" &&
-    let t := if n_compressed n || String.eqb (o_detect o) octet then tbe o (ext_filepath (n_name n)) else o_detect o in
+    (* the type the replication client attaches: sniffed (unless the bytes are gzip-encoded
+       or sniff as octet-stream), else the one filepath.Ext of the name implies *)
+    let m1 := repl_mtype1 o n in
+    let t := if String.eqb m1 "" then tbe o (ext_filepath (n_name n)) else m1 in
     negb (String.eqb (keep256 t) "") && negb (String.eqb t octet)
     && negb (String.eqb t (tbe o (ext_lastindex (parsed_name (replicate o n))))))).
 
